@@ -169,6 +169,10 @@ func Classify(rec arrow.RecordBatch, isHdr bool) Batch {
 		b.Kind = "log"
 		return b
 	}
+	if _, ok := b.Meta[vgirpc.MetaLocation]; ok {
+		b.Kind = "pointer"
+		return b
+	}
 	switch {
 	case isHdr:
 		b.Kind = "hdr"
